@@ -24,14 +24,16 @@ Definition weakly_convex_ccw (cs : list pt) : Prop :=
 
 Definition hept : list pt := [(0, 0); (1, 0); (3, 0); (4, 0); (4, 4); (2, 4); (0, 4)].
 
-Lemma decompose_7_3_refuted_ :
+Definition e73 : entry :=
+  [[Corner 0; Corner 1; Corner 2]; [Corner 2; Corner 3; Corner 4]; [Corner 0; Corner 2; Corner 4]; [Corner 4; Corner 5; Corner 6; Corner 0]].
+Lemma refuted_core : decompose_model 7 [1; 2; 5]%nat = DSub 1 e73 ->
   exists (cs : list pt) (c : pt) (straight : list nat) (start : nat) (e : entry) (ch : child),
     length cs = 7%nat /\ weakly_convex_ccw cs /\ 0 < poly_area cs /\
     (forall i, (i < 7)%nat -> (In i straight <-> straight_at cs i)) /\
     decompose_model 7 straight = DSub start e /\ In ch e /\ child_area cs c start ch = 0.
 Proof.
-  exists hept, (2, 2), [1; 2; 5]%nat, 1%nat.
-  eexists. exists [Corner 0; Corner 1; Corner 2].
+  intro Hm.
+  exists hept, (2, 2), [1; 2; 5]%nat, 1%nat, e73, [Corner 0; Corner 1; Corner 2].
   split; [reflexivity|]. split.
   { intros i Hi. cbn [length hept] in Hi.
     do 7 (destruct i as [|i]; [crunch; lra|]). exfalso; lia. }
@@ -41,7 +43,30 @@ Proof.
           [split; [intros [H|[H|[H|[]]]]; try discriminate H; crunch; lra
                   |intro H; first [solve [cbn [In]; auto 6] | exfalso; crunch_in H; lra]]|]).
     exfalso; lia. }
-  split; [vm_compute; reflexivity|]. split; [left; reflexivity|]. crunch. lra.
+  split; [exact Hm|]. split; [left; reflexivity|]. crunch. lra.
+Qed.
+(** as the source stands WITHOUT the guard: refuted *)
+Lemma decompose_7_3_refuted_ : d73_guarded = false ->
+  exists (cs : list pt) (c : pt) (straight : list nat) (start : nat) (e : entry) (ch : child),
+    length cs = 7%nat /\ weakly_convex_ccw cs /\ 0 < poly_area cs /\
+    (forall i, (i < 7)%nat -> (In i straight <-> straight_at cs i)) /\
+    decompose_model 7 straight = DSub start e /\ In ch e /\ child_area cs c start ch = 0.
+Proof. intro Hg. apply refuted_core. vm_compute in Hg |- *. first [discriminate Hg | reflexivity]. Qed.
+
+(** with the guard (proposed repair: the subdivision is used only if the straight nodes
+    alternate from the start node) every set of three straight nodes either alternates or gets
+    the triangulation fan; the witness above gets the fan *)
+Definition d73_case_ok (s : list nat) : bool :=
+  negb (length s =? 3)%nat ||
+  match decompose_model 7 s with
+  | DSub start e => ((start =? 0)%nat && (length e =? 7)%nat && forallb (fun ch => (length ch =? 3)%nat) e)
+                    || forallb (fun d => nmem ((start + d) mod 7) s) [2; 4]%nat
+  | _ => false
+  end.
+Lemma decompose_7_3_guarded_ : d73_guarded = true ->
+  forallb d73_case_ok (sublists (seq 0 7)) = true /\ decompose_model 7 [1; 2; 5]%nat = DSub 0 (fan 7).
+Proof.
+  intro Hg. split; vm_compute in Hg |- *; first [discriminate Hg | reflexivity].
 Qed.
 
 (** ** positivity under the side condition *)
